@@ -232,9 +232,14 @@ def run_check(pid, spec, args, seed, work, t0):
             failfile = os.path.join(work, "fail", "%s-%d.fail" % (j["name"], sh))
             tmpd = os.path.join(work, "tmp", "%s-%d" % (j["name"], sh))
             os.makedirs(tmpd, exist_ok=True)
+            job_known = list(known_ids)
+            if j.get("known_from"):
+                # a job borrowed from another property's check excludes that property's recorded findings by construction as
+                # well (they are reported by the owning check); otherwise the first hit would end the shard's search
+                job_known += [k["id"] for k in load_known(j["known_from"]) if k.get("status") == "known" and k["id"] not in job_known]
             env = env_for({
                 "VERIF_STATS": statsfile, "VERIF_SHARD": str(sh), "VERIF_SHARDS": str(shards),
-                "VERIF_SEED": str(seed), "VERIF_TIER": tier, "VERIF_KNOWN": ",".join(known_ids),
+                "VERIF_SEED": str(seed), "VERIF_TIER": tier, "VERIF_KNOWN": ",".join(job_known),
                 "VERIF_REPLAY_DIR": replay_dir, "VERIF_STAGED": staged, "VERIF_BIN": os.path.join(work, "bin"),
                 "VERIF_DIR": VERIF, "TMPDIR": tmpd, "VERIF_TMP": tmpd, "VERIF_PROP": pid,
             })
